@@ -707,6 +707,26 @@ impl<'a> Hist<'a> {
                 self.faucets_seen.push(t.clone());
             }
         }
+        // the grandfathered faucet in company: whatever exemption it enjoys is its own
+        if em.faucets >= 30 && r.chance(1, 8) {
+            let g = grandfathered_faucet();
+            self.w.names.reg_tx(&g);
+            let pos = r.below(txs.len() as u64 + 1) as usize;
+            txs.insert(pos, g);
+            if !txs.iter().any(|t| t.kind == TxKind::Faucet && t.hash_nosigs() != txs[pos].hash_nosigs()) {
+                let p = self.parts(name);
+                let coins_map = CoinMapping::new(p.coins.clone());
+                let wcoins = self.wallet.coins(&coins_map, &self.w.names);
+                let pools: SmtMapping<Cas, PoolKey, PoolState> = SmtMapping::new(p.pools.clone());
+                let known: Vec<PoolKey> = vec![];
+                let cx = Ctx { height: p.height.0, network: p.network, mult: p.fee_multiplier, coins: &wcoins, pools: &pools, known_pools: &known };
+                let f = gen_faucet(r, &mut self.wallet, &cx);
+                self.w.names.reg_tx(&f);
+                let pos2 = r.below(txs.len() as u64 + 1) as usize;
+                txs.insert(pos2, f);
+            }
+            labels.push("with-grandfathered-faucet".into());
+        }
         if em.mutate > 0 && !self.faucets_seen.is_empty() && r.chance(1, 6) {
             let mut t = r.pick(&self.faucets_seen).clone();
             let how = match r.below(3) {
